@@ -4,8 +4,8 @@
 From AB Require Import Desc Generated GeneratedWf Tree TreeDefs TreeProofs TreeProofs2 TreeProofs3 TreeRun.
 From Coq Require Import ZArith String List Bool.
 Import ListNotations.
-Open Scope string_scope.
-Open Scope Z_scope.
+Local Open Scope string_scope.
+Local Open Scope Z_scope.
 
 (* Open with two currencies, an inline comment and a string-valued meta item: generated classes only *)
 Definition ex_open : node :=
